@@ -32,6 +32,7 @@ RULE = (
     ' Import orders: child processes import icontract before asyncio / after it / import asyncio only inside the co'
     'routines; the verdict of a call made in a task while its parent has a call in flight on the same object / func'
     'tion equals the verdict of the same call made alone.'
+    ' Shared context: two tasks created with one contextvars.Context; six kinds of first call (method of an object with invariants, with contracts of its own, function with a postcondition / precondition, suspended in its capture / condition) finish while the judged call (method re-entering its object; function re-entered from its condition) is suspended.'
 )
 ASSUMPTIONS = ["gate granularity: preemption between library statements is sampled by the stress tier, not enumerated"]
 
